@@ -517,6 +517,141 @@ def r11_pairing(idx, r):
     pairing_rule(idx, r, ["armi.reactor.converters.geometryConverters", "armi.reactor.cores", "armi.utils.hexagon"], 60)
 
 
+def _block_param_writers(m):
+    """Functions of the module that rewrite parameters of a block they are GIVEN: {function name: (FuncInfo, names of the parameters p with a
+    store to `p.p[...]` / `p.p.<name>`)}."""
+    out = {}
+    for f in m.all_funcs():
+        ps = set(f.params())
+        hit = set()
+        for s_ in iter_stores(f.node, include_nested=False):
+            ch = s_.chain or ""
+            root = ch.split(".", 1)[0]
+            if root in ps and root != "self" and (ch == root + ".p" and s_.kind.startswith("subscript") or ch.startswith(root + ".p.")):
+                hit.add(root)
+        if hit:
+            out[f.name] = (f, hit)
+    return out
+
+
+def _is_location_selection(t, pol, loopvars):
+    """`<loop variable>.getLocation() == '<label>'` (either order; `!=` on the negative side): the choice of an assembly by WHERE it is"""
+    if not (isinstance(t, ast.Compare) and len(t.ops) == 1 and isinstance(t.ops[0], (ast.Eq, ast.NotEq))):
+        return False
+    if isinstance(t.ops[0], ast.Eq) != bool(pol):
+        return False
+    sides = [t.left, t.comparators[0]]
+    for x, y in (sides, sides[::-1]):
+        if isinstance(x, ast.Call) and call_attr(x) == "getLocation" and not x.args and isinstance(x.func, ast.Attribute) and isinstance(x.func.value, ast.Name) and x.func.value.id in loopvars \
+                and isinstance(y, ast.Constant) and isinstance(y.value, str):
+            return True
+    return False
+
+
+def _whole_assembly(src, env, depth=0):
+    """the iterated object is an assembly as such (a plain name: loop variable, argument, result of a lookup), not a selection of its blocks
+    (slice, comprehension, getBlocks(...)/getChildren...(...) with arguments, filter)"""
+    if not isinstance(src, ast.Name):
+        return False
+    v = env.get(src.id)
+    if v is None or depth > 4:
+        return True
+    if isinstance(v, ast.Name):
+        return _whole_assembly(v, env, depth + 1)
+    if isinstance(v, (ast.ListComp, ast.GeneratorExp, ast.Subscript, ast.List, ast.Tuple)):
+        return False
+    if isinstance(v, ast.Call):
+        nm = (v.func.id if isinstance(v.func, ast.Name) else call_attr(v)) or ""
+        if nm in ("filter", "list", "tuple", "sorted", "reversed", "iter") or nm.startswith(("getBlocks", "getChildren", "iterBlocks", "iterChildren")):
+            return False
+    return True
+
+
+def r12_block_walks_total(idx, r):
+    """The symmetry changers rewrite the volume-integrated parameters of blocks through helpers that take the block(s) as arguments
+    (_scaleBlockVolIntegratedParams: x3 and /3 of the centre assembly; _scaleParamsInBlock: folding the two halves of an edge block).  Every call
+    of such a helper whose block argument is the variable of an enclosing `for` is a WALK over an assembly (or over two assemblies in step), and
+    the property speaks of every block: (a) the walk runs over the assembly itself (all its blocks), (b) the helper is reached exactly once in
+    every iteration and the walk is never left early, (c) between the outermost loop and the call the only selection is that of the assembly by
+    its location (the centre assembly).  A guard on anything the block or assembly REPORTS about itself (symmetry factor, flags, a parameter)
+    leaves the blocks it excludes with their unscaled values."""
+    m = idx.module(GC)
+    helpers = _block_param_writers(m)
+    if not helpers:
+        raise AnchorMissing("geometryConverters: no helper that rewrites the parameters of a block passed to it")
+    par = m.parents()
+    n = 0
+    for f in m.all_funcs():
+        env = single_assign_env(f.node)
+        for c in iter_calls(f.node):
+            hn = c.func.id if isinstance(c.func, ast.Name) else call_attr(c)
+            if hn not in helpers:
+                continue
+            hf, bps = helpers[hn]
+            hp = hf.params()
+            if isinstance(c.func, ast.Attribute) and hp and hp[0] in ("self", "cls"):
+                hp = hp[1:]
+            blockargs = [a_.id for p_, a_ in zip(hp, c.args) if p_ in bps and isinstance(a_, ast.Name)]
+            blockargs += [k.value.id for k in c.keywords if k.arg in bps and isinstance(k.value, ast.Name)]
+            # enclosing loops, innermost first
+            loops, nd = [], c
+            while nd in par and nd is not f.node:
+                nd = par[nd]
+                if isinstance(nd, ast.For):
+                    loops.append(nd)
+            bound = {}
+            for lp in loops:
+                for x in ast.walk(lp.target):
+                    if isinstance(x, ast.Name):
+                        bound.setdefault(x.id, lp)
+            walk = next((bound[b_] for b_ in blockargs if b_ in bound), None)
+            if walk is None:
+                continue  # the block is the caller's own argument: a dispatch inside a helper, not a walk
+            n += 1
+            key = f"{f.qualname}:{hn}"
+            fold = len(bps) > 1
+            what = ("the two halves of that edge block are not folded together: once the edge assemblies are removed the remaining block keeps half of its power and of every other "
+                    "volume-integrated parameter" if fold else
+                    "that block keeps its unscaled volume-integrated parameters: the centre assembly's totals are not tripled (or not divided back on restore), so full core is not 3 x third core")
+            # (a) the walk is over whole assemblies
+            it = walk.iter
+            srcs = it.args if isinstance(it, ast.Call) and dotted(it.func) == "zip" and not it.keywords else [it]
+            whole = all(_whole_assembly(s_, env) for s_ in srcs) and all(b_ in bound and bound[b_] is walk for b_ in blockargs)
+            r.require(whole, key + ":walks-the-whole-assembly", f, node=walk,
+                      msg=f"`for {norm(walk.target)} in {norm(walk.iter)[:60]}` does not run over the assembly itself (all of its blocks, pairwise for two assemblies): for a block that the selection leaves out, {what}")
+            # (b) exactly once per iteration, never left early
+            fb = Flow(f.node, lambda x, c=c: ["helper"] if x is c else [], body=walk.body).run()
+            ends = fb.iteration_ends()
+            early = [e for e in fb.exits if e.kind in ("break", "return")]
+            skipping = [norm(propagate(t, env))[:70] + ("" if p else " is false") for t, p in path_conditions(ast.Module(body=walk.body, type_ignores=[]), c)]
+            r.require(bool(ends) and all(s_.get("helper") == (1, 1) for s_ in ends) and not early, key + ":every-block-once", f, node=c,
+                      msg=f"{hn}(...) is not reached exactly once for every block of the walk (per iteration (min,max)={[s_.get('helper', (0, 0)) for s_ in ends]}, "
+                          f"reached only when {skipping}, walk left early at lines {[e.line for e in early]}): for a block that is passed over, {what}")
+            # (c) from the outermost loop down to the walk: the only selection is by location, no loop is left early
+            outer = loops[-1]
+            sel = [(propagate(t, env), p) for t, p in path_conditions(ast.Module(body=outer.body, type_ignores=[]), walk)] if outer is not walk else []
+            badsel = [norm(t)[:70] + ("" if p else " is false") for t, p in sel if not _is_location_selection(t, p, set(bound))]
+            left = []
+            for lp in loops[loops.index(walk) + 1:]:
+                fo = Flow(f.node, lambda x: [], body=lp.body).run()
+                left += [e.line for e in fo.exits if e.kind in ("break", "return")]
+            r.require(not badsel and not left, key + ":assemblies-chosen-by-location-only", f, node=walk,
+                      msg=f"the walk over the blocks is entered only when {badsel} (enclosing loop left early at lines {left}): which assemblies are rescaled follows from where they are (the centre; the two "
+                          f"symmetry lines), not from what they report about themselves - for every block of an assembly that is passed over, {what}")
+    if n < 3:
+        raise AnalysisError(f"only {n} walks over blocks through a parameter-rewriting helper found in the geometry converters (convert, restorePreviousGeometry, scaleParamsRelatedToSymmetry expected)")
+
+
+def r13_new_assemblies_registered(idx, r):
+    """'location and name lookups that resolve exactly as they did before' / every new assembly of the full core (and every edge assembly) enters the
+    core through Core.add and leaves it through Core.removeAssembly(discharge=False) -> _removeListFromAuxiliaries: on EVERY normal path Core.add
+    registers the child, its locator, its name and the names of all its blocks (exactly once, under the current names, at the locator moved to),
+    and the purge deletes the assembly's name and every block's name.  Clauses of R14.2, decided by its rule function."""
+    from ..report import Only
+    from .c14 import r2_add_remove
+    r2_add_remove(idx, Only(r, ["Core.add:", "Core._removeListFromAuxiliaries"]))
+
+
 def run(idx, chk):
     chk.explanation = (
         "C13: in ThirdCoreHexToFullCoreChanger.convert every symmetric location gets exactly one deep-copied, uniquely named, rotated and recorded "
@@ -548,3 +683,10 @@ def run(idx, chk):
                  necessary="each created assembly is the rotated copy of its source; lookups after a change of the edge assemblies see the present core")
     chk.run_rule("R13.11", "arguments stand at the parameter they are named after; sibling calls forward the same pass-through parameters", lambda r: r11_pairing(idx, r), floor=1,
                  necessary="source and image locations are not exchanged")
+    chk.run_rule("R13.12", "every walk over the blocks of an assembly through a parameter-rewriting helper (x3, /3, folding of edge halves) reaches the helper exactly once for every block of the whole assembly; "
+                 "assemblies are selected by location only", lambda r: r12_block_walks_total(idx, r), floor=9,
+                 necessary="'every volume-integrated total [is] three times the third-core value' and 'adding then removing edge assemblies returns the core to its previous state ... with the same parameters': "
+                           "a block the walk passes over keeps its unscaled / unfolded parameters")
+    chk.run_rule("R13.13", "Core.add registers child, locator, name and the names of all blocks on every normal path; the purge of a removed assembly deletes its name and every block's name (clauses of R14.2)",
+                 lambda r: r13_new_assemblies_registered(idx, r), floor=8,
+                 necessary="'each new assembly [is] a uniquely named copy' that the full core can look up, and after the undo 'location and name lookups resolve exactly as they did before the conversion'")
